@@ -354,6 +354,34 @@ func (h *Hist) Next() *proto.Stmt {
 	}
 }
 
+// NextRowChange returns an UPDATE or DELETE on a table that has rows (nil when
+// there is none), applied to the model: a statement that changes existing
+// pages and never allocates one.
+func (h *Hist) NextRowChange() *proto.Stmt {
+	var usable []*model.Table
+	for _, t := range h.DB.Tables {
+		if Usable(t) && len(t.Rows) > 0 {
+			usable = append(usable, t)
+		}
+	}
+	if len(usable) == 0 {
+		return nil
+	}
+	for tries := 0; tries < 50; tries++ {
+		t := usable[h.R.Intn(len(usable))]
+		var s *proto.Stmt
+		if h.R.Chance(2, 3) {
+			s = h.Update(t)
+		} else {
+			s = h.Delete(t)
+		}
+		if fail, _, _, err := h.DB.Apply(s); err == nil && fail == "" {
+			return s
+		}
+	}
+	return nil
+}
+
 // Burst returns a large insert into t (rows rows), applied to the model.
 func (h *Hist) Burst(t *model.Table, rows int) *proto.Stmt {
 	s := &proto.Stmt{Kind: "insert", Table: t.Name}
